@@ -25,9 +25,11 @@ sys.dont_write_bytecode = True
 if REPO in sys.path:
   sys.path.remove(REPO)
 sys.path.insert(0, REPO)
-if STUB:
+if not NATIVE:
+  # source loader: always drops gfapy's docstrings (CrossHair would read them as contracts), and stubs the
+  # error-message arguments unless VERIF_MSGSTUB=0; never used in native replay
   from vlib import msgstub
-  msgstub.install()
+  msgstub.install(stub_messages=STUB)
 import gfapy
 
 if os.path.realpath(os.path.dirname(os.path.dirname(gfapy.__file__))) != os.path.realpath(REPO):
@@ -59,8 +61,33 @@ def _unpartial():
     for b in cls.__bases__: walk(b)
     for s in cls.__subclasses__(): walk(s)
   walk(gfapy.Line)
+def _copy_shim():
+  """CrossHair wraps builtins that carry registered contracts (repr, ...) and shallow-copies their arguments
+  with copy.copy(); gfapy's SegmentEnd/OrientedLine define __new__(cls, *args) reading args[0], which the
+  default copy protocol calls without arguments (IndexError inside the tracer).  Give them an explicit,
+  behaviour-preserving __copy__ -- only under CrossHair, never in native replay."""
+  gfapy.SegmentEnd.__copy__ = lambda self: gfapy.SegmentEnd(self.segment, self.end_type)
+  gfapy.OrientedLine.__copy__ = lambda self: gfapy.OrientedLine(self.line, self.orient)
+  # CrossHair's own deep copy (copyext) ignores __copy__ and falls back to __reduce_ex__ -> cls.__new__(cls):
+  gfapy.SegmentEnd.__reduce_ex__ = lambda self, proto: (gfapy.SegmentEnd, (self.segment, self.end_type))
+  gfapy.OrientedLine.__reduce_ex__ = lambda self, proto: (gfapy.OrientedLine, (self.line, self.orient))
+
+def _repr_shim():
+  """CrossHair replaces the builtin repr() by a contract-carrying wrapper that may 'short-circuit' the call
+  into a fresh symbolic string (hundreds of spurious paths; see DESIGN 2.3).  gfapy calls repr() on its own
+  objects in ordinary code (multiply: link signatures).  Bind the name repr in gfapy's modules to the
+  type's own __repr__ -- the same function the builtin would call."""
+  def _plain_repr(o):
+    return type(o).__repr__(o)
+  for name, mod in list(sys.modules.items()):
+    if name == "gfapy" or name.startswith("gfapy."):
+      if mod is not None and not hasattr(mod, "repr"):
+        mod.repr = _plain_repr
+
 if HAVE_CH and not NATIVE:
   _unpartial()
+  _copy_shim()
+  _repr_shim()
 
 def plain(v):
   """a value that is concrete anyway, as a plain Python object (CrossHair wraps strings built by
